@@ -118,3 +118,27 @@ def classify_c10_categorical_bounds(omin, omax, init):
   if (omin is None) != (omax is None) and init in ("uniform", "constant"):
     return "KF-C10-a"
   return None
+
+
+def classify_c16(what, cfg, phase, exc):
+  """KF-C16-a: cyclic ordering pairs (categorical monotonicities / Linear
+  dominances) are accepted by constructor and build; the cycle is detected only
+  inside the projection (ValueError 'Circular monotonicity constraints').
+  KF-C16-b: PWL clamp_min/clamp_max with monotonicity 'none' is accepted; every
+  projection then raises ValueError('Clamping is not implemented for non
+  monotonic functions.').
+  KF-C16-c: PWL is_cyclic with kernel_initializer='equal_slopes': the
+  initializer reshapes all keypoints into the (one row shorter) cyclic kernel
+  and build fails with TypeError instead of a ValueError."""
+  msg = str(exc)
+  if isinstance(exc, ValueError) and "Circular monotonicity constraints" in msg and phase == "run":
+    return "KF-C16-a"
+  if what == "PWLCalibration":
+    mono = cfg.get("monotonicity")
+    if (isinstance(exc, ValueError) and "Clamping is not implemented for non monotonic functions" in msg and phase == "run"
+        and mono in ("none", 0) and (cfg.get("clamp_min") or cfg.get("clamp_max"))):
+      return "KF-C16-b"
+    if (phase == "build" and isinstance(exc, TypeError) and cfg.get("is_cyclic") and cfg.get("kernel_initializer") == "equal_slopes"
+        and "shape" in msg):
+      return "KF-C16-c"
+  return None
